@@ -1,0 +1,38 @@
+//go:build !verif
+
+// Package simhook contains the seams used by the deterministic simulator that
+// lives outside this repository. Without the "verif" build tag every function
+// here is an empty, inlinable stub and Enabled is a false constant, so the
+// shipped binary contains no simulator behaviour.
+package simhook
+
+import (
+	"context"
+	"net"
+	"net/http"
+	"time"
+)
+
+// Enabled reports whether the simulator hooks are compiled in.
+const Enabled = false
+
+// Pace does nothing.
+func Pace(tick <-chan time.Time, stop <-chan interface{}) {}
+
+// FirstCall always returns true.
+func FirstCall(key interface{}) bool { return true }
+
+// Point does nothing.
+func Point(site string, owner interface{}, table string) {}
+
+// Fail never fails.
+func Fail(site string, owner interface{}, table string) error { return nil }
+
+// Memory returns the actual value.
+func Memory(owner interface{}, actual uint64) uint64 { return actual }
+
+// Dialer returns nil (use the default dialer).
+func Dialer(dest string) func(context.Context, string) (net.Conn, error) { return nil }
+
+// HTTPTransport returns nil (use the default transport).
+func HTTPTransport() http.RoundTripper { return nil }
